@@ -187,22 +187,9 @@ example : zzRandModV 1000 [0xff, 0xff, 0xe8, 0x03, 0x05, 0x01] false = (some 0x1
 
 `nafSum ds = Σ ds[i] 2^i`.  Window w, 2 ≤ w < B_PER_W = W (the header's precondition). -/
 
-/-- wwNAF: the digits sum to `a`; every digit is 0 or odd with `|d| < 2^(w-1)`;
-    the returned size is the number of digits.  (The loop's fuel is proved sufficient here.)
-
-    FULL STATEMENT, not yet proved (named `_partial` for that reason); additionally to the above:
-      - decoding: `nafDecode w (wwNAFV W a w).1 (wwNAFV W a w).2 = (wwNAFDigits W a w).reverse`
-        (checked by evaluation on 418 values against the library and in the example below);
-      - the last digit is non-zero for a ≠ 0;
-      - non-adjacency: among any w consecutive digits at most one is non-zero, EXCEPT at the
-        suffix produced by the header's last remark (β, 0, …, 0, 1 with only w - 2 zeros);
-      - length: `(wwNAFV W a w).1 ≤ bitLenV a + 1`.
-    Missing: the invariants "a non-zero digit is followed by w - 1 even windows" (for
-    non-adjacency and the length bound) and the shift-or = concatenation lemma
-    (`naf <<< w ||| digit`, `x ^^^ 2^(w-1) = x + 2^(w-1)` for x < 2^(w-1)) for decoding.
-    The one-iteration facts are in `Misc.nafDigit_spec`, the loop invariant in
-    `Misc.nafLoop_spec`. -/
-theorem wwNAF_partial (W a w : Nat) (hw : 2 ≤ w) (hwW : w < W) :
+/-- wwNAF, part 1: the digits sum to `a`; every digit is 0 or odd with `|d| < 2^(w-1)`;
+    the returned size is the number of digits.  (The loop's fuel is proved sufficient here.) -/
+theorem wwNAF_value (W a w : Nat) (hw : 2 ≤ w) (hwW : w < W) :
     nafSum (wwNAFDigits W a w) = a
     ∧ (∀ d ∈ wwNAFDigits W a w,
         d = 0 ∨ (d % 2 = 1 ∧ -(2 ^ (w - 1) : ℤ) < d ∧ d < 2 ^ (w - 1)))
@@ -230,11 +217,73 @@ theorem wwNAF_partial (W a w : Nat) (hw : 2 ≤ w) (hwW : w < W) :
       (by split_ifs <;> omega)
     exact ⟨h1, h2, h3⟩
 
+/-- wwNAF, part 2: the code word decodes (a_{l-1} first: a 0 bit = zero symbol, otherwise w bits
+    sign ‖ magnitude) to the digits; for a ≠ 0 the top digit a_{l-1} is non-zero; the length is at
+    most `wwBitSize(a) + 1`; non-adjacency as the code guarantees it (`Misc.nafGapOK`):
+    any non-zero digit is at least w positions after the previous non-zero digit, except that the
+    LAST digit may be only w - 1 positions after it.
+
+    Header inconsistency (ww.h): the fourth property "among any w consecutive symbols only one is
+    non-zero" cannot hold together with the last remark of the same header: when the computation
+    would end with the suffix (α, 0, …, 0, 1), α < 0, w - 1 zeros, the code replaces it by
+    (β, 0, …, 0, 1), β = 2^(w-1) + α > 0, with w - 2 zeros — two non-zero symbols among the last
+    w.  The code implements the remark (it is what makes the length bound hold); the property
+    should read "…, except possibly for the last w symbols". -/
+theorem wwNAF_spec (W a w : Nat) (hw : 2 ≤ w) (hwW : w < W) :
+    nafDecode w (wwNAFV W a w).1 (wwNAFV W a w).2 = (wwNAFDigits W a w).reverse
+    ∧ (a ≠ 0 → ∃ d, (wwNAFDigits W a w).getLast? = some d ∧ d ≠ 0)
+    ∧ (wwNAFV W a w).1 ≤ bitLenV a + 1
+    ∧ nafGapOK w none (wwNAFDigits W a w) := by
+  obtain ⟨k, rfl⟩ : ∃ k, w = k + 2 := ⟨w - 2, by omega⟩
+  unfold wwNAFDigits wwNAFV wwNAFAll
+  by_cases ha : a = 0
+  · subst ha; simp [nafDecode, nafGapOK]
+  · simp only [if_neg ha]
+    have hB : 0 < 2 ^ (k + 2) := Nat.two_pow_pos _
+    have hm := Nat.mod_lt a hB
+    have hdec := nafLoop_decode W k a (bitLenV a) hwW (bitLenV a + 2 ^ (k + 2) + 2) (k + 2)
+      (a % 2 ^ (k + 2)) [] 0 0 (by omega) rfl (by simp [nafDecode])
+    have hlen : bitLenV a = Nat.log2 a + 1 := by unfold bitLenV; rw [if_neg ha]
+    have halen : a < 2 ^ bitLenV a := by rw [hlen]; exact Nat.lt_log2_self
+    have hlo : 2 ^ Nat.log2 a ≤ a := Nat.log2_self_le ha
+    have htop : a / 2 ^ (bitLenV a - 1) % 2 = 1 := by
+      rw [hlen, Nat.add_sub_cancel]
+      have : a / 2 ^ Nat.log2 a = 1 :=
+        Nat.div_eq_of_lt_le (by omega) (by rw [hlen, Nat.pow_succ] at halen; omega)
+      rw [this]
+    obtain ⟨h1, h2⟩ := nafLoop_shape W k a (bitLenV a) hwW halen (by omega) htop
+      (bitLenV a + 2 ^ (k + 2) + 2) (k + 2) (a % 2 ^ (k + 2)) [] 0 0 (by omega) (by simp) rfl
+      (by
+        intro hle
+        have h2 : 2 ^ bitLenV a * 2 ^ (k + 2 - bitLenV a) = 2 ^ (k + 2) := by
+          rw [← Nat.pow_add]; congr 1; omega
+        have h3 : a < 2 ^ (k + 2) := by
+          rw [← h2]
+          exact Nat.lt_of_lt_of_le halen (Nat.le_mul_of_pos_right _ (Nat.two_pow_pos _))
+        rw [Nat.mod_eq_of_lt h3, ← h2]
+        exact Nat.mul_le_mul_right _ (by omega))
+      (by omega)
+      (by
+        rintro ⟨h0, hge⟩
+        exfalso
+        have h3 : a < 2 ^ (k + 2) :=
+          Nat.lt_of_lt_of_le halen (Nat.pow_le_pow_right (by omega) (by omega))
+        rw [Nat.mod_eq_of_lt h3] at h0
+        exact ha h0)
+      (by split_ifs <;> omega)
+    have hgap := nafLoop_gap W k a (bitLenV a) hwW halen (bitLenV a + 2 ^ (k + 2) + 2) (k + 2)
+      (a % 2 ^ (k + 2)) [] 0 0 (by omega) trivial trivial
+    exact ⟨hdec, fun _ => h2, h1, hgap⟩
+
 example : wwNAFDigits 64 (2 ^ 70 - 5) 4 = [-5, 0, 0, 0, 0, 0, 0, 0, 0, 0, 0, 0, 0, 0, 0, 0, 0, 0,
       0, 0, 0, 0, 0, 0, 0, 0, 0, 0, 0, 0, 0, 0, 0, 0, 0, 0, 0, 0, 0, 0, 0, 0, 0, 0, 0, 0, 0, 0, 0, 0,
       0, 0, 0, 0, 0, 0, 0, 0, 0, 0, 0, 0, 0, 0, 0, 0, 0, 0, 0, 0, 1]
     ∧ wwNAFV 64 0xE7 3 = (9, 21377)
     ∧ wwNAFDigits 64 0xE7 3 = [-1, 0, 0, -3, 0, 0, 0, 0, 1]
     ∧ nafDecode 3 9 21377 = (wwNAFDigits 64 0xE7 3).reverse := by decide +kernel
+
+/-- the suffix exception in action (w = 3): the last two non-zero digits are w - 1 = 2 apart. -/
+example : wwNAFDigits 64 7 3 = [3, 0, 1] ∧ wwNAFDigits 64 39 3 = [-1, 0, 0, 1, 0, 1]
+    ∧ wwNAFDigits 64 0xE7 3 = [-1, 0, 0, -3, 0, 0, 0, 0, 1] := by decide +kernel
 
 end Bee2V.C05
